@@ -130,9 +130,19 @@ for _sid, _v in _R4.items():
     if _sid[-1] in "hi" and _v["rc"] != 0:
         BENIGN_FIRST[_sid] = ("first run: FALSE ALARM (%s)%s" % (", ".join(_v["rules"]), (" — " + _v["note"]) if _v.get("note") else "") if _v["rc"] == 1 else
                               "first run: refused (%s)" % (_v["broken"][0].split("property=")[-1][:140] if _v["broken"] else "analysis broken"))
+_R5 = json.load(open(os.path.join(DST, "round5_first_verdicts.json"))) if os.path.exists(os.path.join(DST, "round5_first_verdicts.json")) else {}
+for _sid, _v in _R5.items():
+    if _v["rc"] != 0 or _v.get("rc_guard_off") not in (0, None):
+        _w = _v["rc_guard_off"] if _v.get("rc_guard_off") is not None else _v["rc"]
+        BENIGN_FIRST[_sid] = ("first run: FALSE ALARM (%s)%s" % (", ".join(_v["rules"]), "; refused with the inventory guard on" if _v["rc"] == 2 else "") if _w == 1 else
+                              "first run: refused (%s)" % (_v["broken"][0].split("property=")[-1][:140] if _v["broken"] else "analysis broken"))
 BENIGN_NOW = {
     "C12-h": "still refused: size() counts through std::count_if with a generic lambda whose body the fact extractor does not emit; everything else in the refactoring is followed",
-    "C16-h": "still refused: C16-R6 finds the close decision through the locals of processHttpRequest (anchored names); the refactoring moves it into two helpers",
+    "C13-j": "still refused: C13-R7's literal clause does not follow the shared _consumeLiteral(\"null\") helper",
+    "C13-k": "still refused: the hex reader returns std::optional (C13-R3 cannot read `*unit` through operator*), _serialize dispatches with an if-chain over isObject()… (C13-R4)",
+    "C19-j": "still refused: parseSoaRecord reads five fields in a range-for over field addresses behind one checkBounds(…, 20); the window analysis does not track trip counts",
+    "C16-j": "refused: the pipelining loop body of handleIncomingData becomes a local lambda returning bool (C16-R1 / C15-style framing clauses do not follow it)",
+    "C16-k": "refused: the dispatch switch moves into applyDispatchDecision(), the two send-outcome bools become an enum, the post-send close blocks become closeTransportSession()",
 }
 
 
